@@ -17,6 +17,7 @@ import Driver.OpsConvert
 import Driver.OpsGeo
 import Driver.OpsDtRe
 import Driver.OpsRender
+import Driver.OpsHeap
 
 open Lean DI DI.Codec
 
@@ -58,6 +59,9 @@ def dispatch (op : String) (a : Json) : Except String Json :=
   | some r => r
   | none =>
   match DI.Ops.renderOp op a with
+  | some r => r
+  | none =>
+  match DI.Ops.heapOp op a with
   | some r => r
   | none => .error s!"unknown op {op}"
 
